@@ -22,6 +22,8 @@ import SeataModel.Driver.C02
 open Seata.Driver
 
 def dispatch (prop : String) (ws : List String) : String :=
+  -- a case decided by the oracle on the implementation alone (no model counterpart), for every property
+  if ws == ["skip"] then "skip" else
   match prop with
   | "C12" => C12.handle ws
   | "C13" => C13.handle ws
